@@ -3,8 +3,12 @@
 The REAL cascade.gateway.router.JobRouter is driven through the REAL server.handle_fe /
 server.handle_controller (and the real client.request_response / parse_request /
 serialize_response / report.serialize / report.deserialize glue) over scripted fake sockets
-and a real (pure-python part of) zmq.Poller.  _spawn_subprocess is patched out, uuid.uuid4 is
-scripted so that collisions with existing ids can be forced.
+and a real (pure-python part of) zmq.Poller.  _spawn_subprocess is patched out, the id source is
+scripted so that collisions with existing ids can be forced: the real uuid.uuid1/uuid4 (and the
+entropy call os.urandom) are wrapped under EVERY name they are bound to in the uuid/os/random
+modules and in every loaded cascade module.  A draw of the scripted source is either a legacy
+id-like string (round 1-4 streams) or a real uuid.UUID value (round 5): the job id is then whatever
+the implementation makes of it, later events name the job by reference ("@<tag of the submit>").
 
 * oracle: a direct reading of the property on the observed responses (independent of the model);
 * correspondence: the same histories are evaluated by the Coq model (Gateway/Router.v) and the
@@ -15,13 +19,18 @@ import hashlib
 import itertools
 import json
 import logging
+import os
+import random
 import re
+import sys
 import types
+import uuid as uuidmod
 
 from common import cN, cZ, cbool, clist, copt, cstr, coq_results
 
 TRUSTED = [
-    "harness/c18.py fakes: scripted PULL/REP sockets, scripted uuid.uuid4, patched _spawn_subprocess/get_context/getfqdn; "
+    "harness/c18.py fakes: scripted PULL/REP sockets, scripted id source (uuid.uuid1/uuid4/os.urandom wrapped wherever bound), "
+    "patched _spawn_subprocess/get_context/getfqdn; "
     "the dispatch of server.serve (read a socket only while it is registered in the zmq.Poller) is re-enacted by the driver",
     "string -> number maps for job ids / task names / output names (injective per history); base64 + JSON + pickle transport is in the "
     "loop on the implementation side and not modelled",
@@ -32,12 +41,15 @@ ASSUMPTIONS = [
     "never_crashes / keeps-serving theorems: every report read from the socket created for job j names job j (each controller is started "
     "with its own job id and address); a report naming an untracked job is outside the property and does raise KeyError out of the loop",
     "uuid4 is an arbitrary (adversarial) candidate stream; an exhausted script stands for a generator that never yields a fresh id",
+    "round 5 streams: the job id is a function of ONE draw of the id source (the rendering str(u) / u.hex / a prefix ... is observed on a fresh "
+    "router per uuid value and handed to the model as a table); a history on which the implementation contradicts that table, or does not draw "
+    "from the scripted source at all, is checked by the oracle only (counted as not-compared)",
     "requests are well-formed API objects (parse_request failures on malformed JSON are not modelled)",
     "after a ShutdownRequest the model keeps processing events (serve finishes the current poll batch); histories are prefixes of that",
 ]
 
 HEADER = """From Coq Require Import List NArith ZArith String.
-From EKW Require Import Gateway.Router Gateway.RouterCheck.
+From EKW Require Import Gateway.Router Gateway.IdSource Gateway.RouterCheck.
 Import ListNotations.
 Open Scope string_scope.
 """
@@ -85,6 +97,39 @@ class FakeUUID:
     __repr__ = __str__
 
 
+# the process's id sources, captured before anything is patched
+_REAL_UUID_FNS = {n: getattr(uuidmod, n) for n in ("uuid1", "uuid4", "uuid6", "uuid7", "uuid8") if hasattr(uuidmod, n)}
+_REAL_URANDOM = os.urandom
+_BINDINGS = {"n": -1, "list": [], "depth": 0}
+
+
+def _bindings():
+    """(namespace dict, attribute, kind) of every name bound to a real id-source function: the uuid / os / random / secrets modules
+    themselves and every loaded module of the implementation (`from uuid import uuid4`, `uuid4 = uuid.uuid4` ...)"""
+    if _BINDINGS["n"] == len(sys.modules) or _BINDINGS["depth"] > 0:   # never look for the real functions while they are replaced
+        return _BINDINGS["list"]
+    out = []
+    for name, mod in list(sys.modules.items()):
+        if mod is None or not (name in ("uuid", "os", "posix", "random", "secrets") or name.split(".")[0] in ("cascade", "earthkit")):
+            continue
+        d = getattr(mod, "__dict__", None)
+        if not isinstance(d, dict):
+            continue
+        for attr, val in list(d.items()):
+            if val is _REAL_URANDOM:
+                out.append((d, attr, "urandom"))
+                continue
+            for kind, real in _REAL_UUID_FNS.items():
+                if val is real:
+                    out.append((d, attr, kind))
+    _BINDINGS["n"], _BINDINGS["list"] = len(sys.modules), out
+    return out
+
+
+def is_uuid_hex(c):
+    return isinstance(c, str) and len(c) == 32 and all(x in "0123456789abcdef" for x in c)
+
+
 class Gateway:
     """one gateway instance: real JobRouter + real handlers, fake sockets"""
 
@@ -105,6 +150,9 @@ class Gateway:
         self.sock_by_addr = {}
         self.sock_of_job = {}
         self.uuid_script = None
+        self.consumed = 0
+        self.uuid_objs = {}
+        self.id_of_tag = {}
         self.spawn_ok = True
         self.last_alloc = None
         self.fe_exc = None
@@ -124,20 +172,38 @@ class Gateway:
         if not self.spawn_ok:
             raise OSError("spawn failed (scripted)")
 
-    def _uuid4(self):
-        if self.uuid_script is None:
-            return self._real_uuid4()
+    def _draw(self):
         if not self.uuid_script:
             raise RuntimeError("uuid script exhausted")
-        return FakeUUID(self.uuid_script.pop(0))
+        self.consumed += 1
+        return self.uuid_script.pop(0)
+
+    def _uuid_fn(self, kind):
+        real = _REAL_UUID_FNS[kind]
+
+        def scripted(*a, **k):
+            if self.uuid_script is None:
+                return real(*a, **k)
+            c = self._draw()
+            if not is_uuid_hex(c):
+                return FakeUUID(c)           # legacy streams: an id-like string
+            if c not in self.uuid_objs:      # a real UUID value; a repeated draw is the same object again
+                self.uuid_objs[c] = uuidmod.UUID(hex=c)
+            return self.uuid_objs[c]
+        scripted.__name__ = kind
+        return scripted
+
+    def _urandom(self, n):
+        if self.uuid_script is None:
+            return _REAL_URANDOM(n)
+        c = self._draw()
+        b = bytes.fromhex(c) if is_uuid_hex(c) else hashlib.sha256(c.encode()).digest()
+        return (b * (n // len(b) + 1))[:n]
 
     @contextlib.contextmanager
     def patched(self):
-        import uuid as uuidmod
-        import threading
         router, client = self.routermod, self.client
-        saved = (router.get_context, router.getfqdn, router._spawn_subprocess, uuidmod.uuid4, client.threading, getattr(router, "uuid4", None))
-        self._real_uuid4 = uuidmod.uuid4
+        saved = (router.get_context, router.getfqdn, router._spawn_subprocess, client.threading)
         gw = self
 
         class ReqSock:
@@ -168,9 +234,13 @@ class Gateway:
         router.get_context = lambda: types.SimpleNamespace(socket=self._ctx_socket)
         router.getfqdn = lambda *a: "gateway.test"
         router._spawn_subprocess = self._spawn
-        uuidmod.uuid4 = self._uuid4
-        if saved[5] is not None:
-            router.uuid4 = self._uuid4
+        fns = {kind: self._uuid_fn(kind) for kind in _REAL_UUID_FNS}
+        fns["urandom"] = self._urandom
+        todo = list(_bindings())
+        bound = [(d, attr, d[attr]) for d, attr, kind in todo]
+        _BINDINGS["depth"] += 1
+        for d, attr, kind in todo:
+            d[attr] = fns[kind]
         client.threading = types.SimpleNamespace(local=lambda: L)
         prev_disable = logging.root.manager.disable
         logging.disable(logging.CRITICAL)
@@ -178,9 +248,34 @@ class Gateway:
             yield self
         finally:
             logging.disable(prev_disable)
-            router.get_context, router.getfqdn, router._spawn_subprocess, uuidmod.uuid4, client.threading = saved[:5]
-            if saved[5] is not None:
-                router.uuid4 = saved[5]
+            router.get_context, router.getfqdn, router._spawn_subprocess, client.threading = saved
+            for d, attr, val in reversed(bound):
+                d[attr] = val
+            _BINDINGS["depth"] -= 1
+
+    # ---- "@<tag>" names the job the submit tagged <tag> created; "@<tag>:<how>" a string derived from that id
+    def resolve(self, s):
+        m = re.fullmatch(r"@(\d+)(?::([a-z0-9-]+))?", s) if isinstance(s, str) else None
+        if not m:
+            return s
+        jid = self.id_of_tag.get(int(m.group(1)))
+        if jid is None:
+            return s                                   # no such job (yet): an untracked name
+        how = m.group(2)
+        if how is None:
+            return jid
+        return {"x": jid + "x", "-1": jid[:-1], "p12": jid[:12], "p8": jid[:8], "sfx": jid[-12:], "up": jid.upper(), "sp": jid + " ",
+                "nodash": jid.replace("-", ""), "sw": jid.swapcase()}.get(how, s)
+
+    def resolved(self, ev):
+        op = ev["op"]
+        if op == "progress":
+            return {**ev, "ids": [self.resolve(x) for x in ev["ids"]]}
+        if op == "result":
+            return {**ev, "job": self.resolve(ev["job"])}
+        if op == "deliver":
+            return {**ev, "sock": self.resolve(ev["sock"]), "report": {**ev["report"], "job": self.resolve(ev["report"]["job"])}}
+        return ev
 
     # ---- one event -> canonical observation (list, JSON-able) ; raises Crash
     def fe_request(self, req):
@@ -195,7 +290,8 @@ class Gateway:
         api = self.api
         op = ev["op"]
         if op == "submit":
-            self.uuid_script = list(ev["cands"])
+            self.uuid_script = list(ev["draws"] if "draws" in ev else ev["cands"])
+            self.consumed = 0
             self.spawn_ok = bool(ev["spawn_ok"])
             self.last_alloc = None
             try:
@@ -205,7 +301,9 @@ class Gateway:
                 self.uuid_script = None
             if r.job_id is not None:  # where the controller of this job reports to, as far as the harness can know
                 self.sock_of_job.setdefault(r.job_id, None)
-            return ["submit", r.job_id, errkind(r.error), self.last_alloc]
+            if "tag" in ev:
+                self.id_of_tag[ev["tag"]] = r.job_id if r.job_id is not None else self.last_alloc
+            return ["submit", r.job_id, errkind(r.error), self.last_alloc, self.consumed]
         if op == "progress":
             r = self.fe_request(api.JobProgressRequest(job_ids=list(ev["ids"])))
             return ["progress", sorted(r.progresses.items()), errkind(r.error)]
@@ -246,17 +344,39 @@ def errkind(err):
 
 
 def run_history(events):
-    """-> (observations, crash) ; crash = None | [kind, what, index]"""
+    """-> (observations, crash, events with the job references resolved) ; crash = None | [kind, what, index]"""
     gw = Gateway()
-    obs, crash = [], None
+    obs, crash, revents = [], None, []
     with gw.patched():
         for i, ev in enumerate(events):
+            rev = gw.resolved(ev)
+            revents.append(rev)
             try:
-                obs.append(gw.do(ev))
+                obs.append(gw.do(rev))
             except Crash as c:
                 crash = [c.kind, c.what, i]
                 break
-    return obs, crash
+    return obs, crash, revents + events[len(revents):]
+
+
+_RENDER = {}
+
+
+def render_of(h):
+    """the job id the implementation makes of the draw h (uuid value / id-like string): observed on a fresh router whose id source yields h once.
+    None when the id is not a function of one draw (no draw / several draws / no id)"""
+    if h not in _RENDER:
+        out = None
+        try:
+            gw = Gateway()
+            with gw.patched():
+                ob = gw.do({"op": "submit", "draws": [h], "spawn_ok": True})
+            if ob[1] is not None and ob[4] == 1:
+                out = ob[1]
+        except Crash:
+            pass
+        _RENDER[h] = out
+    return _RENDER[h]
 
 
 # ----------------------------------------------------------------------------- oracle: the property, read directly
@@ -278,7 +398,7 @@ def oracle(events, obs, crash, wf=None):
     for i, (ev, ob) in enumerate(zip(events, obs)):
         op = ev["op"]
         if op == "submit":
-            _, jid, err, alloc = ob
+            jid, err, alloc = ob[1:4]
             for x in {jid, alloc} - {None}:
                 if x in good or x in shaky:
                     out.append(("job-id-reused", f"event {i}: submit was given id {x!r} which an earlier job already has"))
@@ -368,7 +488,8 @@ def c_bytes(hexs):
 def c_event(nm, ev):
     op = ev["op"]
     if op == "submit":
-        return f"Fe (SubmitJobRequest {clist([nm.n('j:' + c) for c in ev['cands']])} {cbool(ev['spawn_ok'])})"
+        # what the id source yields (uuid values, or the id-like strings of the older streams); the table of c_case renders them
+        return f"Fe (SubmitJobRequest {clist([nm.n('u:' + c) for c in ev.get('draws', ev.get('cands'))])} {cbool(ev['spawn_ok'])})"
     if op == "progress":
         return f"Fe (JobProgressRequest {clist([nm.n('j:' + c) for c in ev['ids']])})"
     if op == "result":
@@ -394,11 +515,37 @@ def c_output(nm, ob):
     return "Handled" if k == "handled" else "Dropped"
 
 
+def render_table(events, obs):
+    """[(uuid value, job id)] for every draw of the history; ValueError when the implementation's ids are not the observed
+    one-draw rendering (then the model has nothing to say about this history: oracle only)"""
+    tbl = {}
+    for ev, ob in itertools.zip_longest(events, obs):
+        if ev["op"] != "submit":
+            continue
+        draws = ev.get("draws", ev.get("cands"))
+        for h in draws:
+            if h not in tbl:
+                tbl[h] = render_of(h)
+                if tbl[h] is None:
+                    raise ValueError("job id is not a rendering of one draw")
+        if ob is not None and (ob[1] is not None or ob[3] is not None):
+            got = ob[1] if ob[1] is not None else ob[3]
+            k = ob[4]
+            if k == 0:
+                raise ValueError("id source not scripted (no draw taken)")
+            if k > len(draws) or tbl[draws[k - 1]] != got:
+                raise ValueError("job id depends on more than the last draw")
+    return sorted(tbl.items())
+
+
 def c_case(events, obs, crash):
+    """events: with resolved job references"""
     nm = Names()
+    tbl = clist([f"({nm.n('u:' + h)}, {nm.n('j:' + j)})" for h, j in render_table(events, obs)])
     evs = clist([c_event(nm, e) for e in events])
     outs = clist([c_output(nm, o) for o in obs])
-    return f"(({evs},\n    {outs},\n    {copt(crash[0] if crash else None, cstr)}) : list event * list output * option string)"
+    return (f"(({tbl},\n    {evs},\n    {outs},\n    {copt(crash[0] if crash else None, cstr)})"
+            " : list (N * jobid) * list event * list output * option string)")
 
 
 # ----------------------------------------------------------------------------- generators
@@ -529,6 +676,173 @@ def gen_history(rng, malformed=False):
     return events
 
 
+# ----------------------------------------------------------------------------- round 5: uuid-shaped draws, jobs named by reference
+def _u4(r, fixed=None):
+    """32 hex digits of a version-4 uuid; fixed = {position: digit} taken over from a relative"""
+    h = ["%x" % r.randrange(16) for _ in range(32)]
+    for i, c in (fixed or {}).items():
+        h[i] = c
+    h[12] = "4"
+    if h[16] not in "89ab":
+        h[16] = "89ab"[int(h[16], 16) % 4]
+    return "".join(h)
+
+
+def _family(r):
+    """a uuid and look-alikes: equal in the first 8 / 12 / 16 / 20 digits, in the last 12 (node), in all but the first / the last digit,
+    in the digits str() groups (time_low + node)"""
+    b = _u4(r)
+    keep = lambda idx: {i: b[i] for i in idx}
+    rel = [keep(range(8)), keep(range(12)), keep(range(16)), keep(range(20)), keep(range(20, 32)), keep(range(1, 32)), keep(range(31)),
+           keep(list(range(8)) + list(range(20, 32)))]
+    out = [b]
+    for fx in rel:
+        for _ in range(8):
+            h = _u4(r, fx)
+            if h not in out:
+                out.append(h)
+                break
+    return out
+
+
+UPOOL = [_family(random.Random(f"C18-upool-{k}")) for k in range(12)]
+UNKNOWN_HOW = ["x", "-1", "p12", "p8", "sfx", "up", "sp", "nodash", "sw"]
+
+
+def gen_history_u(rng, malformed=False, many=False):
+    """like gen_history, but the id source yields uuid VALUES (repeats, long collision runs, look-alikes of tracked ids, ids of finished and
+    of failed jobs, exhaustion) and every later event names a job by the tag of its submit"""
+    njobs = rng.randrange(8, 41) if many else rng.choice([1, 2, 2, 3, 3, 4, 5, 6])
+    fams = rng.sample(UPOOL, rng.choice([1, 1, 2, 3]))
+    refs = [f"@{k}" for k in range(njobs)]
+    lanes = []
+    for k, ref in enumerate(refs):
+        reps = job_script(rng, ref) if (not many or rng.random() < 0.25) else job_script(rng, ref)[:rng.choice([0, 1, 2])]
+        lane = [{"op": "deliver", "sock": ref, "report": r} for r in reps]
+        sub = {"op": "submit", "tag": k, "draws": None, "spawn_ok": True}
+        lane.insert(0 if rng.random() < 0.9 else rng.randrange(len(lane) + 1), sub)
+        lanes.append(lane)
+    events = []
+    idx = [0] * njobs
+    live = list(range(njobs))
+    while live:
+        k = rng.choice(live) if rng.random() < 0.8 else live[0]
+        events.append(lanes[k][idx[k]])
+        idx[k] += 1
+        if idx[k] == len(lanes[k]):
+            live.remove(k)
+    if rng.random() < 0.3:     # submissions that only see known values: with the code as it is they end in the exhausted script
+        events.insert(rng.randrange(1, len(events) + 1), {"op": "submit", "tag": njobs, "draws": "old", "spawn_ok": True})
+    accepted = []              # the values the generator expects to have become ids (uuid equality): only steers the choice below
+    for ev in events:
+        if ev["op"] != "submit":
+            continue
+        rel = [h for f in fams for h in f if h not in accepted and any(a in f for a in accepted)]
+        oth = [h for f in fams for h in f if h not in accepted and h not in rel]
+        if rel and (rng.random() < 0.6 or not oth):
+            new = rng.choice(rel)
+        elif oth:
+            new = rng.choice(oth)
+        else:
+            new = _u4(rng)
+        pre = []
+        if accepted and (ev["draws"] == "old" or rng.random() < 0.55):
+            run = rng.choice([1, 1, 2, 3, 5, 12, 30])
+            pre = [rng.choice(accepted)] * run if rng.random() < 0.4 else [rng.choice(accepted) for _ in range(run)]
+        if ev["draws"] == "old" or rng.random() < 0.05:
+            ev["draws"] = pre
+            continue
+        ev["draws"] = pre + [new] + ([new] if rng.random() < 0.1 else []) + ([rng.choice(accepted)] if accepted and rng.random() < 0.1 else [])
+        if rng.random() < 0.06:
+            ev["spawn_ok"] = False
+        accepted.append(new)
+    unknown = ["nope", ""] + [f"@{rng.randrange(njobs)}:{h}" for h in UNKNOWN_HOW] + [f"@{njobs + 7}"]
+
+    def query(known):
+        r = rng.random()
+        if r < 0.22:
+            return {"op": "progress", "ids": []}
+        if r < 0.5:
+            pool = known or refs
+            return {"op": "progress", "ids": [rng.choice(pool) for _ in range(rng.randrange(1, 4))]}
+        if r < 0.62:
+            q = [rng.choice(refs) for _ in range(rng.randrange(0, 3))]
+            q.insert(rng.randrange(len(q) + 1), rng.choice(unknown + refs))
+            return {"op": "progress", "ids": q}
+        if r < 0.9:
+            return {"op": "result", "job": rng.choice(refs), "ds": rng.choice(DS_POOL[:4] if rng.random() < 0.85 else DS_POOL)}
+        return {"op": "result", "job": rng.choice(unknown), "ds": rng.choice(DS_POOL)}
+
+    for _ in range(rng.choice([1, 2, 3, 4, 6]) * (3 if many else 1)):
+        pos = rng.randrange(len(events) + 1)
+        events.insert(pos, query([f"@{e['tag']}" for e in events[:pos] if e["op"] == "submit" and e["tag"] < njobs]))
+    if rng.random() < 0.1:
+        events.insert(rng.randrange(len(events) + 1), {"op": "stop"})
+    if malformed:
+        dl = [e for e in events if e["op"] == "deliver"]
+        for e in rng.sample(dl, min(len(dl), rng.randrange(1, 3))):
+            how = rng.choice(["sock", "job", "neg", "unknownjob"])
+            if how == "sock":
+                e["sock"] = rng.choice(refs)
+            elif how == "job":
+                e["report"]["job"] = rng.choice(refs)
+            elif how == "neg":
+                e["report"]["ts"] = rng.choice([-1, -1, -2, -10**12])
+            else:
+                e["report"]["job"] = rng.choice(unknown)
+    events.append({"op": "progress", "ids": []})
+    seen = []
+    for e in events:
+        if e["op"] == "deliver":
+            for d, _ in e["report"]["results"]:
+                if d not in seen:
+                    seen.append(d)
+    for ref in refs:
+        events.append({"op": "progress", "ids": [ref]})
+        for d in seen[:2 if many else 4]:
+            events.append({"op": "result", "job": ref, "ds": d})
+    return events
+
+
+def small_scope_u():
+    """a first job with a progress report and a result, then two submissions under EVERY script of at most two draws over
+    {the first job's uuid, a look-alike in the first 12 digits, one in the last 12, an unrelated uuid}, then the probes"""
+    f, g = UPOOL[0], UPOOL[1]
+    alpha = [f[0], f[2], f[5], g[0]]
+    scripts = [[]] + [[a] for a in alpha] + [[a, b] for a in alpha for b in alpha]
+    d = ["t", "0"]
+
+    def rep(j, st, ts, rs=()):
+        return {"op": "deliver", "sock": j, "report": {"job": j, "status": st, "ts": ts, "results": [list(x) for x in rs]}}
+    for s1 in scripts:
+        for s2 in scripts:
+            yield [{"op": "submit", "tag": 0, "draws": [f[0]], "spawn_ok": True}, rep("@0", "40.00", 5, [(d, "aa")]),
+                   {"op": "submit", "tag": 1, "draws": list(s1), "spawn_ok": True}, rep("@1", "41.00", 6, [(d, "bb")]),
+                   {"op": "submit", "tag": 2, "draws": list(s2), "spawn_ok": True}, rep("@2", "42.00", 7),
+                   {"op": "progress", "ids": []}, {"op": "progress", "ids": ["@0"]}, {"op": "result", "job": "@0", "ds": d},
+                   {"op": "progress", "ids": ["@1"]}, {"op": "result", "job": "@1", "ds": d}, {"op": "result", "job": "@2", "ds": d},
+                   {"op": "progress", "ids": ["@0:p12"]}, {"op": "result", "job": "@0:nodash", "ds": d}]
+
+
+def corpus_u():
+    def rep(j, st, ts, rs=()):
+        return {"op": "deliver", "sock": j, "report": {"job": j, "status": st, "ts": ts, "results": [list(x) for x in rs]}}
+    sub = lambda tag, *c, ok=True: {"op": "submit", "tag": tag, "draws": list(c), "spawn_ok": ok}
+    pa = {"op": "progress", "ids": []}
+    d0 = ["sink", "o"]
+    A, A12, B, C = UPOOL[3][0], UPOOL[3][2], UPOOL[4][0], UPOOL[5][0]
+    probes = [pa, {"op": "progress", "ids": ["@0"]}, {"op": "result", "job": "@0", "ds": d0}, {"op": "progress", "ids": ["@1", "@2"]}]
+    return [
+        # the id source repeats itself: A, A, B, B, A, C
+        [sub(0, A), rep("@0", "40.00", 1000), rep("@0", None, 1100, [(d0, "0102")]), sub(1, A, B), sub(2, B, A, C)] + probes,
+        # a finished job's id is drawn again; a failed spawn's id is drawn again
+        [sub(0, A), rep("@0", "90.00", 9), rep("@0", SHUTDOWN, 10), sub(1, A, A, A, B), sub(2, C, ok=False), sub(3, C, A, B, A12)] + probes,
+        # look-alikes only, a long run of collisions, then nothing new
+        [sub(0, A), sub(1, A12), sub(2, *([A] * 40 + [A12] * 40 + [B])), sub(3, A, A12, B), rep("@1", "5.00", 5), rep("@2", "6.00", 6)] + probes +
+        [{"op": "progress", "ids": ["@0:p12"]}, {"op": "progress", "ids": ["@0:up"]}, {"op": "result", "job": "@1:-1", "ds": d0}],
+    ]
+
+
 def small_scope(maxlen):
     """every history of at most maxlen controller reports over two tracked jobs from a fixed alphabet, followed by the probes"""
     A, B = "A", "B"
@@ -572,8 +886,9 @@ def corpus():
 
 # ----------------------------------------------------------------------------- run / search / replay / shrink
 def evaluate(events):
-    obs, crash = run_history(events)
-    return obs, crash, oracle(events, obs, crash)
+    """-> observations, crash, oracle verdicts, events with resolved job references (what the oracle and the model are given)"""
+    obs, crash, revents = run_history(events)
+    return obs, crash, oracle(revents, obs, crash), revents
 
 
 def hist_key(events):
@@ -616,12 +931,19 @@ def classify(events, obs, res):
         res.count("has-report-after-shutdown(dropped)")
     if any(o[0] == "progress" and o[2] for o in obs) or any(o[0] == "result" and o[2] for o in obs):
         res.count("has-error-response")
-    if any(e["op"] == "submit" and len(e["cands"]) != 1 for e in events):
+    if any(e["op"] == "submit" and len(e.get("draws", e.get("cands"))) != 1 for e in events):
         res.count("has-uuid-collision-or-exhaustion")
+    ids = [o[1] for o in obs if o[0] == "submit" and o[1] is not None]
+    if any(e["op"] == "submit" and "draws" in e and o[4] >= 2 for e, o in zip(events, obs)):
+        res.count("has-redrawn-uuid-value")
+    if any(a != b and (a[:12] == b[:12] or a[-12:] == b[-12:]) for a in ids for b in ids):
+        res.count("has-look-alike-job-ids")
+    if len(ids) >= 8:
+        res.count("jobs>=8")
 
 
 def run(ctx, res):
-    res.rule = ("a history (submits with scripted uuid candidates, controller reports on per-job sockets -- in order, swapped, shuffled, reversed, duplicated, "
+    res.rule = ("a history (submits with a scripted id source -- id-like strings or real uuid values: repeats, collision runs, look-alikes, exhaustion --, controller reports on per-job sockets -- in order, swapped, shuffled, reversed, duplicated, "
                 "after shutdown, before the job exists --, progress/result queries incl. unknown ids, final probes of every job and dataset) counts as "
                 "non-trivial when at least one report was handled by handle_controller and a frontend query was answered after it; distinct = distinct event lists")
     streams = []
@@ -635,29 +957,45 @@ def run(ctx, res):
         streams.append(("malformed", gen_history(rng2, malformed=True)))
     for h in small_scope(ctx.n(4, 5)):
         streams.append(("small-scope", h))
+    # round 5: the id source yields uuid values, jobs are named by reference
+    for h in corpus_u():
+        streams.append(("corpus-uuid", h))
+    rng3 = ctx.sub_rng("uuid")
+    for _ in range(ctx.n(800, 12000)):
+        streams.append(("random-uuid", gen_history_u(rng3)))
+    rng4 = ctx.sub_rng("uuid-malformed")
+    for _ in range(ctx.n(150, 2500)):
+        streams.append(("malformed-uuid", gen_history_u(rng4, malformed=True)))
+    rng5 = ctx.sub_rng("uuid-many")
+    for _ in range(ctx.n(25, 300)):
+        streams.append(("many-jobs-uuid", gen_history_u(rng5, many=True)))
+    for h in small_scope_u():
+        streams.append(("small-scope-uuid", h))
     terms, metas = [], []
     for kind, events in streams:
-        obs, crash, bad = evaluate(events)
+        obs, crash, bad, revents = evaluate(events)
         res.evaluations += 1
-        wf = is_wf(events)
+        wf = is_wf(revents)
         res.count(f"stream:{kind}")
-        if kind != "small-scope":
-            classify(events, obs, res)
+        if not kind.startswith("small-scope"):
+            classify(revents, obs, res)
         if crash:
             res.count("loop-left-by-exception" + ("" if wf else " (report naming a foreign/untracked job)"))
-        if nontrivial(events, obs):
+        if nontrivial(revents, obs):
             res.nontrivial_keys.add(hist_key(events))
         case = {"events": events, "stream": kind}
         for sig, what in bad[:1]:
             res.fail(sig, what, case)
-        if len(res.samples) < 3 and kind == "random" and nontrivial(events, obs):
+        if len(res.samples) < 3 and kind == "random" and nontrivial(revents, obs):
+            res.samples.append({"events": events[:12], "observations": obs[:12]})
+        if len(res.samples) < 5 and kind == "random-uuid" and nontrivial(revents, obs) and any(o[0] == "submit" and o[4] >= 2 for o in obs):
             res.samples.append({"events": events[:12], "observations": obs[:12]})
         try:
-            terms.append(c_case(events, obs, crash))
+            terms.append(c_case(revents, obs, crash))
             metas.append((case, obs, crash))
-        except ValueError as e:  # a string the literal printer refuses: counted, not compared
-            res.count("not-compared:" + str(e)[:40])
-    results, logs = coq_results("C18", HEADER, terms, "check_case", tag="hist", shard=300)
+        except ValueError as e:  # a string the literal printer refuses / ids that are no rendering of one draw: counted, not compared
+            res.count("not-compared:" + str(e)[:60])
+    results, logs = coq_results("C18", HEADER, terms, "check_case_r", tag="hist", shard=300)
     res.corr_checked += len(results)
     for r, (case, obs, crash) in zip(results, metas):
         if r is not True:
@@ -674,11 +1012,11 @@ def search(ctx, res):
         ev = (d.get("case") or {}).get("events")
         if ev:
             first.append(ev)
-    cands = itertools.chain(first, corpus(),
+    cands = itertools.chain(first, corpus(), corpus_u(),
                             (gen_history(ctx.sub_rng(f"search{k}")) for k in range(1)),
-                            _many(ctx), small_scope(4))
+                            small_scope_u(), _many(ctx), small_scope(4))
     for events in cands:
-        obs, crash, bad = evaluate(events)
+        obs, crash, bad, _ = evaluate(events)
         if bad:
             f = {"signature": bad[0][0], "what": bad[0][1], "case": {"events": events, "stream": "search"}}
             return shrink(ctx, f)
@@ -687,8 +1025,8 @@ def search(ctx, res):
 
 def _many(ctx):
     rng = ctx.sub_rng("search-many")
-    for _ in range(6000):
-        yield gen_history(rng)
+    for k in range(9000):
+        yield gen_history_u(rng, malformed=(k % 7 == 6), many=(k % 50 == 49)) if k % 3 == 2 else gen_history(rng)
 
 
 def shrink(ctx, f):
@@ -698,7 +1036,7 @@ def shrink(ctx, f):
 
     def still(evs):
         try:
-            _, _, bad = evaluate(evs)
+            _, _, bad, _ = evaluate(evs)
         except Exception:
             return None
         for s, w in bad:
@@ -724,5 +1062,6 @@ def replay(ctx, case):
     events = c.get("events")
     if not events:
         return {"fails": None, "note": "no event list in this replay file"}
-    obs, crash, bad = evaluate(events)
-    return {"fails": bool(bad), "failures": [{"signature": s, "what": w} for s, w in bad], "observations": obs, "crash": crash}
+    obs, crash, bad, revents = evaluate(events)
+    return {"fails": bool(bad), "failures": [{"signature": s, "what": w} for s, w in bad], "observations": obs, "crash": crash,
+            "job_ids": {str(e["tag"]): o[1] if o[1] is not None else o[3] for e, o in zip(revents, obs) if e["op"] == "submit" and "tag" in e}}
